@@ -27,6 +27,17 @@ type bconfig struct {
 	Name   string   `json:"name"`
 	Sizes  []int    `json:"sizes"`  // payload size of the i-th append; len = max number of appends
 	Groups []string `json:"groups"` // group names of the alphabet
+	Lite   []string `json:"lite"`   // groups with the restricted alphabet create / consume / ack (no stop, no setConsumed)
+	QAck   bool     `json:"qack"`   // extra event qack(s): Queue().SetAcknowledgedSeq(s) called directly, s in [-1..appended+1]
+}
+
+func (c *bconfig) lite(g string) bool {
+	for _, n := range c.Lite {
+		if n == g {
+			return true
+		}
+	}
+	return false
 }
 
 // size profiles against the 64-byte data page / 4 index items per index page
@@ -38,26 +49,69 @@ var profiles = map[string][]int{
 	"exact": {34, 30, 1, 64, 10},  // 34+30 fill page 0 exactly, 1 rolls, 64 = a whole page, 10 rolls again
 }
 
-func mkcfg(profile string, appends int, groups ...string) bconfig {
-	return bconfig{Name: fmt.Sprintf("%s/%d/%s", profile, appends, strings.Join(groups, "")), Sizes: profiles[profile][:appends], Groups: groups}
-}
-
-func bfsConfigs(thorough bool) []bconfig {
-	if thorough {
-		return []bconfig{
-			mkcfg("half", 4, "a", "b"), mkcfg("big", 4, "a", "b"), mkcfg("mixed", 4, "a", "b"), mkcfg("exact", 4, "a", "b"),
-			mkcfg("tiny", 4, "a", "b"),
-			mkcfg("half", 5, "a"), mkcfg("big", 5, "a"), mkcfg("tiny", 5, "a"), mkcfg("mixed", 5, "a"), mkcfg("exact", 5, "a"),
-			mkcfg("half", 3, "a", "b"), mkcfg("big", 3, "a", "b"), mkcfg("mixed", 3, "a", "b"), mkcfg("exact", 3, "a", "b"),
-			mkcfg("half", 5, "a", "b"), mkcfg("tiny", 5, "a", "b"),
+// mkcfg("half", 3, "ab") = groups a and b with the full alphabet; "a+b" = a full, b restricted (lite);
+// a trailing "!" adds the direct queue-ack event (outside the statement's operation list: it exercises the
+// "only forward, never beyond appended" mechanism of SetAcknowledgedSeq itself, which Sync alone cannot
+// violate because it starts from the appended position; the group-minimum clause is not applied to it).
+func mkcfg(profile string, appends int, groups string) bconfig {
+	c := bconfig{Name: fmt.Sprintf("%s/%d/%s", profile, appends, groups), Sizes: profiles[profile][:appends]}
+	lite := false
+	for _, r := range groups {
+		if r == '+' {
+			lite = true
+			continue
+		}
+		if r == '!' {
+			c.QAck = true
+			continue
+		}
+		c.Groups = append(c.Groups, string(r))
+		if lite {
+			c.Lite = append(c.Lite, string(r))
 		}
 	}
-	return []bconfig{
-		mkcfg("half", 3, "a", "b"), mkcfg("big", 3, "a", "b"), mkcfg("mixed", 3, "a", "b"), mkcfg("exact", 3, "a", "b"),
-		mkcfg("half", 4, "a"), mkcfg("big", 4, "a"), mkcfg("mixed", 4, "a"), mkcfg("exact", 4, "a"),
-		mkcfg("tiny", 5, "a"), mkcfg("half", 5, "a"), mkcfg("big", 5, "a"), mkcfg("exact", 5, "a"),
-		mkcfg("tiny", 3, "a", "b"), mkcfg("mixed", 5, "a"), mkcfg("big", 2, "a", "b"), mkcfg("half", 2, "a", "b"),
+	return c
+}
+
+func parseCfg(name string) (bconfig, bool) {
+	p := strings.Split(name, "/")
+	if len(p) != 3 || profiles[p[0]] == nil {
+		return bconfig{}, false
 	}
+	k, err := strconv.Atoi(p[1])
+	if err != nil || k < 1 || k > len(profiles[p[0]]) {
+		return bconfig{}, false
+	}
+	return mkcfg(p[0], k, p[2]), true
+}
+
+// the state space of "<= n appends" contains that of "<= n-1 appends", and "ab" contains "a+b" and "a".
+func bfsConfigs(thorough bool) []bconfig {
+	var names []string
+	if thorough {
+		names = []string{
+			"half/4/ab", "big/4/ab", "mixed/4/ab", "exact/4/ab", "tiny/4/ab",
+			"half/5/a+b", "tiny/5/a+b", "big/5/a+b",
+			"half/5/a", "big/5/a", "tiny/5/a", "mixed/5/a", "exact/5/a",
+			"half/4/a!", "big/4/a!", "half/3/a+b!",
+		}
+	} else {
+		names = []string{
+			"big/2/ab", "exact/2/ab", // (half/2/ab has the same page structure as exact/2/ab)
+			"half/3/a+b", "big/3/a+b", "exact/3/a+b", // (mixed/3 has the same page structure as half/3)
+			"half/5/a", "big/5/a", "tiny/5/a", "exact/5/a",
+			"half/3/a!", "big/3/a!",
+		}
+	}
+	var out []bconfig
+	for _, n := range names {
+		c, ok := parseCfg(n)
+		if !ok {
+			vevid.Fatal("bad configuration name %q", n)
+		}
+		out = append(out, c)
+	}
+	return out
 }
 
 // ---------------------------------------------------------------------------------------------
@@ -180,14 +234,21 @@ func (s *bsys) Enabled() []string {
 			for v := int64(-1); v <= cur.A+1; v++ {
 				evs = append(evs, fmt.Sprintf("ack:%s:%d", g, v))
 			}
-			for v := int64(-1); v <= cur.A+1; v++ {
-				evs = append(evs, fmt.Sprintf("setc:%s:%d", g, v))
+			if !s.cfg.lite(g) {
+				for v := int64(-1); v <= cur.A+1; v++ {
+					evs = append(evs, fmt.Sprintf("setc:%s:%d", g, v))
+				}
+				evs = append(evs, "stop:"+g)
 			}
-			evs = append(evs, "stop:"+g)
 		}
 		evs = append(evs, "create:"+g) // also on a live group: GetOrCreate must hand back the same group
 	}
 	evs = append(evs, "sync", "gc", "reopen")
+	if s.cfg.QAck {
+		for v := int64(-1); v <= cur.A+1; v++ {
+			evs = append(evs, fmt.Sprintf("qack::%d", v))
+		}
+	}
 	return evs
 }
 
@@ -261,6 +322,8 @@ func (s *bsys) Apply(ev string) (err error) {
 		cg.SetConsumedSeq(arg)
 	case "sync":
 		s.fq.Sync()
+	case "qack":
+		s.fq.Queue().SetAcknowledgedSeq(arg)
 	case "gc":
 		s.fq.Queue().GC()
 	case "create":
@@ -401,7 +464,7 @@ func (s *bsys) Invariant(prevCanon, ev string) []vxstate.Finding {
 	if post.Q > post.A {
 		add("queue-ack-beyond-appended", site, ctx)
 	}
-	if post.Q != pre.Q {
+	if post.Q != pre.Q && kind != "qack" {
 		for n, p := range post.G { // the groups existing at the moment the position moved
 			if post.Q > p.K {
 				add("queue-ack-beyond-group-ack", site, fmt.Sprintf("queue ack moved %d -> %d while existing group %s has ack %d | %s", pre.Q, post.Q, n, p.K, ctx))
@@ -534,6 +597,15 @@ func (s *bsys) Invariant(prevCanon, ev string) []vxstate.Finding {
 		default:
 			outcome = "setc:in-order"
 		}
+	case "qack":
+		switch {
+		case arg <= pre.Q:
+			outcome = "qack:not-forward"
+		case arg > pre.A:
+			outcome = "qack:beyond-appended"
+		default:
+			outcome = "qack:forward"
+		}
 	case "sync":
 		if post.Q != pre.Q {
 			outcome = "sync:moved"
@@ -664,17 +736,12 @@ func runBFS(f *vevid.Flags, rep *vevid.Report, r replay) {
 	bfsRoot = filepath.Join(f.Scratch, "bfs")
 	_ = os.MkdirAll(bfsRoot, 0o755)
 	defer os.RemoveAll(bfsRoot)
-	all := append(bfsConfigs(false), bfsConfigs(true)...)
 	if f.Replay != "" {
-		var cfg *bconfig
-		for i := range all {
-			if all[i].Name == r.Config {
-				cfg = &all[i]
-			}
-		}
-		if cfg == nil {
+		c, ok := parseCfg(r.Config)
+		if !ok {
 			vevid.Fatal("replay: unknown config %q", r.Config)
 		}
+		cfg := &c
 		bfsNoDist = true
 		fails := 0
 		for i := 0; i < 5; i++ {
@@ -701,12 +768,14 @@ func runBFS(f *vevid.Flags, rep *vevid.Report, r replay) {
 		return
 	}
 	cfgs := bfsConfigs(f.Thorough())
-	if only := os.Getenv("C06_CONFIGS"); only != "" { // debugging: explicit configuration list profile/appends/groups,...
+	if only := os.Getenv("C06_CONFIGS"); only != "" { // debugging / sizing: explicit configuration list
 		cfgs = nil
 		for _, n := range strings.Split(only, ",") {
-			p := strings.Split(n, "/")
-			k, _ := strconv.Atoi(p[1])
-			cfgs = append(cfgs, mkcfg(p[0], k, strings.Split(p[2], "")...))
+			c, ok := parseCfg(n)
+			if !ok {
+				vevid.Fatal("bad configuration name %q", n)
+			}
+			cfgs = append(cfgs, c)
 		}
 	}
 	rep.Rule = "one breadth-first search to fixpoint per configuration (payload-size profile x max appends x group names) over the events append, consume(g), ack(g,s) and setConsumed(g,s) for s in [-1..appended+1], sync, gc, create(g) (also on a live group), stop(g), reopen on a real FanOutQueue in a scratch directory; a successor = fresh queue + replay of the shortest history + one event; states deduplicated by (in-memory positions, group status, directory image); the oracle runs on every transition. distinct_nontrivial = distinct canonical states with >=1 appended message and >=1 live group"
